@@ -3,7 +3,7 @@ import re
 from collections import defaultdict
 
 import prov as provmod
-from prov import Prov
+from prov import Prov, params_of
 
 # =====================================================================================================
 # Trusted summaries of code that is not analysed (std / smallvec / hashbrown / tracing): DESIGN §3.0
@@ -1968,3 +1968,268 @@ def check_size_hint_counts(ck, rule, prog, file_rx):
         ck.ob(rule, "size-hint/%s" % b.short, False, "%s stores a value taken from Iterator::size_hint in %s: size_hint is only a bound (0 for filter / flat_map / from_fn, the head's length for chain), not the number of items" % (b.short, what), where=b.where(line))
     if not fs:
         ck.ob(rule, "size-hint", True, "no value of Iterator::size_hint is stored as a count (%d size_hint call(s) in these files, used for allocation sizes only)" % n)
+
+
+# =====================================================================================================
+# WRAPPER: container methods of a newtype / record answer with the same-named method of ONE inner collection
+# =====================================================================================================
+WRAP_FAMILY = {
+    "len": {"len", "count"},
+    "is_empty": {"is_empty"},
+    "contains": {"contains", "contains_key", "binary_search", "any"},
+    "contains_key": {"contains_key", "contains"},
+    "get": {"get", "index", "binary_search"},
+    "get_mut": {"get_mut", "index_mut"},
+    "clear": {"clear"},
+    "push": {"push", "push_back"},
+    "insert": {"insert"},
+    "retain": {"retain"},
+    "iter": {"iter", "into_iter", "values", "keys"},
+    "keys": {"keys", "iter"},
+    "values": {"values", "iter", "index"},
+    "first": {"first"},
+    "last": {"last"},
+}
+WRAP_IGNORE = {"deref", "deref_mut", "as_ref", "as_mut", "borrow", "borrow_mut", "to_usize", "into", "from", "clone", "copied", "cloned", "as_slice", "as_u32", "is_ok", "is_some", "map", "collect", "ok", "unwrap_or"}
+WRAP_ALL = set().union(*WRAP_FAMILY.values()) | {"capacity", "is_some", "is_none", "truncate", "pop", "remove", "drain", "first", "last"}
+
+
+def wrapper_findings(prog, file_rx=r".*"):
+    """list of dict(body, name, owner, verdict (True | False | None), msg, fields, line)"""
+    pvn = Prov(prog, inline=False)
+    out = []
+    for b in prog.production():
+        if b.kind != "AssocFn" or b.name not in WRAP_FAMILY or not b.impl_self or b.impl_trait or not re.search(file_rx, b.file or ""):
+            continue
+        if b.natural_loops() or len(b.reach) > 8 or b.nargs < 1:
+            continue
+        owner = (b.impl_self or {}).get("adt") or (b.impl_self or {}).get("s", "")
+        calls = [(bi, t) for bi, t in b.calls() if t.callee.method not in WRAP_IGNORE and t.args]
+        on_self = []
+        for bi, t in calls:
+            at = pvn.of_operand(b, t.args[0])
+            if params_of(at, b.id) == {1} or (1 in params_of(at, b.id)):
+                flds = sorted({a[2] for a in at if a[0] == "field" and a[1] == owner})
+                on_self.append((bi, t, flds))
+        if len(on_self) != 1:
+            out.append({"body": b, "name": b.name, "owner": owner, "verdict": None, "msg": "not a single delegating call", "fields": [], "line": b.line})
+            continue
+        bi, t, flds = on_self[0]
+        m = t.callee.method
+        nots = [st for pos, st in b.stmts() if st.k == "assign" and st.rv["k"] == "un" and st.rv["op"] == "Not"]
+        ariths = [st for pos, st in b.stmts() if st.k == "assign" and st.rv["k"] == "bin" and st.rv["op"] not in ("Eq", "Ne", "Lt", "Le", "Gt", "Ge")]
+        cmps = [st for pos, st in b.stmts() if st.k == "assign" and st.rv["k"] == "bin" and st.rv["op"] in ("Eq", "Ne", "Lt", "Le", "Gt", "Ge")]
+        rec = {"body": b, "name": b.name, "owner": owner, "fields": flds, "line": t.line, "method": m}
+        if b.name == "is_empty" and m in ("len", "count") and len(cmps) == 1 and not nots:
+            c = cmps[0]
+            zero = (c.rv["r"].kind == "const" and c.rv["r"].int_value() == 0) or (c.rv["l"].kind == "const" and c.rv["l"].int_value() == 0)
+            one = (c.rv["r"].kind == "const" and c.rv["r"].int_value() == 1)
+            ok = (c.rv["op"] == "Eq" and zero) or (c.rv["op"] == "Lt" and one) or (c.rv["op"] == "Le" and zero and c.rv["r"].kind == "const")
+            rec.update(verdict=bool(ok), msg="is_empty is `%s() %s %s`" % (m, c.rv["op"], "0" if zero else "1" if one else "?") + ("" if ok else ": not `len == 0`"))
+        elif m in WRAP_FAMILY[b.name]:
+            if nots and b.name in ("is_empty", "contains", "contains_key"):
+                rec.update(verdict=False, msg="%s answers with the NEGATED %s() of its inner collection" % (b.name, m))
+            elif ariths and b.name == "len":
+                rec.update(verdict=None, msg="len adjusts the inner length arithmetically")
+            elif cmps and b.name not in ("get", "contains"):
+                rec.update(verdict=None, msg="compares the delegated result")
+            else:
+                rec.update(verdict=True, msg="%s delegates to %s() of `%s`" % (b.name, m, "/".join(flds) or "self"))
+        elif m in WRAP_ALL:
+            rec.update(verdict=False, msg="%s answers with %s() of `%s` (expected %s)" % (b.name, m, "/".join(flds) or "self", " / ".join(sorted(WRAP_FAMILY[b.name]))))
+        else:
+            rec.update(verdict=None, msg="delegates to %s(), not a collection method this rule knows" % m)
+        out.append(rec)
+    return out
+
+
+def check_wrappers(ck, rule, prog, file_rx, floor=0):
+    fs = wrapper_findings(prog, file_rx)
+    n = 0
+    by_owner = {}
+    for r in sorted(fs, key=lambda r: r["body"].id):
+        b = r["body"]
+        if r["verdict"] is None:
+            continue  # not a plain wrapper: other rules (or nothing) speak about it
+        n += 1
+        ck.ob(rule, "wrapper/%s" % b.short, r["verdict"], "%s: %s" % (b.short, r["msg"]), where=b.where(r["line"]))
+        if r["verdict"] and r["fields"] and r["name"] in ("len", "is_empty", "iter", "contains", "get", "clear", "push"):
+            by_owner.setdefault(r["owner"], {})[r["name"]] = tuple(r["fields"])
+    for owner, d in sorted(by_owner.items()):
+        if len(d) >= 2:
+            same = len(set(d.values())) == 1
+            ck.ob(rule, "wrapper-siblings/%s" % owner.rsplit("::", 1)[-1], same, "%s: %s act on %s" % (owner.rsplit("::", 1)[-1], ", ".join(sorted(d)), "the same inner collection `%s`" % "/".join(next(iter(d.values()))) if same else "DIFFERENT inner collections %s" % {k: "/".join(v) for k, v in sorted(d.items())}))
+    if floor:
+        ck.floor(rule, "container wrappers", n, floor)
+    return n
+
+
+# =====================================================================================================
+# IDENTITY: hand-written PartialEq / Hash of a crate type
+# =====================================================================================================
+def identity_findings(prog, file_rx=r".*"):
+    """for every hand-written `PartialEq::eq` of a crate type: the fields compared on self and on other, and the fields its `Hash`
+    feeds the hasher: list of dict(owner, eq_body, self_fields, other_fields, ncmp, negated, hash_body, hash_fields)"""
+    from prov import field_names
+    pv = Prov(prog)
+    out = []
+    for b in prog.production():
+        if b.kind != "AssocFn" or b.impl_trait != "std::cmp::PartialEq" or b.name != "eq" or b.exp or not re.search(file_rx, b.file or ""):
+            continue
+        owner = (b.impl_self or {}).get("adt")
+        if not owner or owner not in prog.adts or b.nargs != 2:
+            continue
+        if b.locals[2]["s"].replace("&", "").strip().split("<")[0].rsplit("::", 1)[-1] != owner.rsplit("::", 1)[-1]:
+            continue  # PartialEq<OtherType>
+        cmps = []
+        for pos, st in b.stmts():
+            if st.k == "assign" and st.rv["k"] == "bin" and st.rv["op"] in ("Eq", "Ne"):
+                cmps.append((st.rv["op"], st.rv["l"], st.rv["r"], st.line))
+        for bi, t in b.calls():
+            if t.callee.trait == "std::cmp::PartialEq" and t.callee.method in ("eq", "ne") and len(t.args) == 2:
+                cmps.append(("Eq" if t.callee.method == "eq" else "Ne", t.args[0], t.args[1], t.line))
+        nots = len([1 for pos, st in b.stmts() if st.k == "assign" and st.rv["k"] == "un" and st.rv["op"] == "Not"])
+        sides = []
+        for op, l, r, line in cmps:
+            al, ar = pv.of_operand(b, l), pv.of_operand(b, r)
+            sides.append((op, params_of(al, b.id), frozenset(field_names(al, owner.rsplit("::", 1)[-1])), params_of(ar, b.id), frozenset(field_names(ar, owner.rsplit("::", 1)[-1])), line))
+        hb = None
+        for h in prog.production():
+            if h.kind == "AssocFn" and h.impl_trait == "std::hash::Hash" and h.name == "hash" and not h.exp and (h.impl_self or {}).get("adt") == owner:
+                hb = h
+        hf = set()
+        if hb is not None:
+            for bi, t in hb.calls():
+                if t.callee.method in ("hash", "write", "write_u32", "write_u64", "write_usize", "hash_slice") and t.args:
+                    hf |= field_names(pv.of_operand(hb, t.args[0]), owner.rsplit("::", 1)[-1])
+        out.append({"owner": owner, "eq": b, "sides": sides, "nots": nots, "hash": hb, "hash_fields": hf})
+    return out
+
+
+def check_identity_impls(ck, rule, prog, file_rx=r".*", floor=0):
+    """equality of a record type compares the SAME field(s) of both values, un-negated, and the Hash impl feeds only fields that
+    equality looks at (equal values must hash alike)"""
+    n = 0
+    for r in identity_findings(prog, file_rx):
+        b = r["eq"]
+        nm = r["owner"].rsplit("::", 1)[-1]
+        if not r["sides"]:
+            ck.undecided(rule, "identity/%s/eq" % nm, "no comparison recognised in %s" % b.short, where=b.where())
+            continue
+        n += 1
+        bad = []
+        keys = set()
+        for op, pl, fl, pr, fr, line in r["sides"]:
+            if not ((pl == {1} and pr == {2}) or (pl == {2} and pr == {1})):
+                bad.append("compares %s with %s (line %s)" % (sorted(pl), sorted(pr), line))
+            elif fl != fr:
+                bad.append("compares self.%s with other.%s (line %s)" % ("/".join(sorted(fl)) or "?", "/".join(sorted(fr)) or "?", line))
+            elif (op == "Ne") != (r["nots"] % 2 == 1) and len(r["sides"]) == 1:
+                bad.append("answers the negation of the comparison (line %s)" % line)
+            keys |= fl
+        adt = prog.adts.get(r["owner"]) or {}
+        has_id = any(f.get("name") == "id" for v in adt.get("variants", []) for f in v.get("fields", []))
+        if not bad and has_id and "id" not in keys:
+            bad.append("does not compare the `id` of the two values (it compares `%s`): two different records can be equal" % "/".join(sorted(keys)))
+        ck.ob(rule, "identity/%s/eq" % nm, not bad, "%s::eq %s" % (nm, ("compares `%s` of both values" % "/".join(sorted(keys))) if not bad else "; ".join(bad)), where=b.where())
+        if r["hash"] is not None:
+            extra = r["hash_fields"] - keys
+            if not r["hash_fields"]:
+                ck.undecided(rule, "identity/%s/hash" % nm, "hashed fields not recognised in %s" % r["hash"].short, where=r["hash"].where())
+            else:
+                ck.ob(rule, "identity/%s/hash" % nm, not extra, "%s hashes `%s`; equality looks at `%s`%s" % (nm, "/".join(sorted(r["hash_fields"])), "/".join(sorted(keys)), "" if not extra else ": values that are equal can hash differently (lookups in hashed collections miss)"), where=r["hash"].where())
+    if floor:
+        ck.floor(rule, "hand-written equality impls", n, floor)
+    return n
+
+
+# =====================================================================================================
+# MAPPING ITERATORS: one inner item in, one item out
+# =====================================================================================================
+def mapping_iterator_findings(prog, file_rx=r".*"):
+    """hand-written loop-free `Iterator::next` bodies that take ONE item from an inner iterator and turn it into their own item:
+    every `None` they return must come from the inner iterator's exhaustion.  A `None` produced after an item was taken (a failed
+    lookup turned into `None`, a `?` on something else than the inner `next()`) ends the iteration early and silently.
+    list of dict(body, verdict, msg, line)"""
+    pvn = Prov(prog, inline=False)
+    out = []
+    for b in prog.production():
+        if b.kind != "AssocFn" or b.impl_trait not in ("std::iter::Iterator", "std::iter::DoubleEndedIterator") or b.name not in ("next", "next_back") or b.exp:
+            continue
+        if not re.search(file_rx, b.file or "") or b.natural_loops():
+            continue
+        inner = [(bi, t) for bi, t in b.calls() if t.callee.method in ("next", "next_back") and t.args and 1 in params_of(pvn.of_operand(b, t.args[0]), b.id)]
+        if len(inner) != 1:
+            continue
+        ibi, it = inner[0]
+        if it.dest is None or not it.dest.is_local():
+            continue
+        # the branch on the inner result: discriminant switch, or Try::branch
+        none_edges = []
+        for sb in sorted(b.reach):
+            x = b.blocks[sb].term
+            if x.k != "switch" or x.discr.place is None or not x.discr.place.is_local():
+                continue
+            # the switched value must BE the inner result (copies, its discriminant, `?`'s branch()), not a value computed from the item
+            cur, through_branch, is_inner, hops = x.discr.place.local, False, False, 0
+            while cur is not None and hops < 12:
+                hops += 1
+                ds = pvn.defs(b).get(cur, [])
+                if len(ds) != 1:
+                    break
+                kind, pos, d = ds[0]
+                if kind == "call":
+                    if pos[0] == ibi:
+                        is_inner = True
+                        break
+                    if d.callee.method == "branch" and d.args and d.args[0].place is not None and d.args[0].place.is_local():
+                        through_branch = True
+                        cur = d.args[0].place.local
+                        continue
+                    break
+                rv = d.rv
+                if rv["k"] == "discr" and rv["place"].is_local():
+                    cur = rv["place"].local
+                elif rv["k"] == "use" and rv["op"].place is not None and rv["op"].place.is_local():
+                    cur = rv["op"].place.local
+                else:
+                    break
+            if is_inner:
+                # discriminant of Option: 0 = None; of ControlFlow (after branch): 1 = Break
+                want = 1 if through_branch else 0
+                tg = dict(x.targets).get(want)
+                if tg is None and len(x.targets) == 1:
+                    tg = x.otherwise
+                if tg is not None:
+                    none_edges.append((sb, tg))
+        sources = []
+        for pos, st in b.stmts():
+            if st.k == "assign" and st.place.local == 0 and st.place.is_local() and st.rv["k"] == "agg" and st.rv.get("variant") == "None":
+                sources.append((pos[0], st.line, "None"))
+        for bi, t in b.calls():
+            if t.callee.method == "from_residual" and t.dest is not None and t.dest.is_local() and t.dest.local == 0:
+                sources.append((bi, t.line, "`?`"))
+            if t.dest is not None and t.dest.is_local() and t.dest.local == 0 and t.callee.method in ("ok", "and_then", "filter", "then", "then_some", "get", "copied", "cloned", "map") and bi != ibi:
+                # the result is built by a combinator: `map` of the inner result is one-to-one, the others can turn Some into None
+                recv_inner = t.args and any(a[0] == "call" and a[3] == b.id and a[4] == ibi for a in pvn.of_operand(b, t.args[0]))
+                if t.callee.method in ("map", "copied", "cloned") and recv_inner:
+                    continue
+                sources.append((bi, t.line, "%s()" % t.callee.method))
+        if not none_edges and not sources:
+            out.append({"body": b, "verdict": True, "msg": "maps the inner item one-to-one (combinator form)", "line": it.line})
+            continue
+        loose = [(bb, line, what) for bb, line, what in sources if not any(b.edge_dominates(e, bb) or bb == e[1] for e in none_edges)]
+        if loose:
+            out.append({"body": b, "verdict": False, "msg": "returns %s at line %s after an item was taken from the inner iterator: the iteration ends early and the remaining items are never produced" % (loose[0][2], loose[0][1]), "line": loose[0][1]})
+        else:
+            out.append({"body": b, "verdict": True, "msg": "returns None only when the inner iterator is exhausted", "line": it.line})
+    return out
+
+
+def check_mapping_iterators(ck, rule, prog, file_rx, floor=0):
+    fs = mapping_iterator_findings(prog, file_rx)
+    for r in sorted(fs, key=lambda r: r["body"].id):
+        ck.ob(rule, "one-to-one/%s" % r["body"].id, r["verdict"], "%s %s" % (r["body"].short, r["msg"]), where=r["body"].where(r["line"]))
+    if floor:
+        ck.floor(rule, "mapping iterators", len(fs), floor)
+    return len(fs)
